@@ -178,8 +178,10 @@ def build(cfg, values=None):
             keep = [i for i in range(size) if i not in ex]
             inc = V('inc')
             cu = np.array([V('cu%d' % a) for a in range(len(keep))], dtype=object)
-            cc._calc_NL_matrices(cu.copy(), inc=inc, silent=True)
-            kTuu = cc.kTuu.todict()
+            # through the public calc_kT, after the same object was asked for the tangent of the same free amplitudes at ANOTHER
+            # load level (with prescribed displacements the full state, hence the tangent, depends on the load level)
+            cc.calc_kT(cu.copy(), inc=V('inc_before'), silent=True)
+            kTuu = cc.calc_kT(cu.copy(), inc=inc, silent=True).todict()
             for j in range(len(keep)):
                 fs = {}
                 for t_ in (-2, -1, 1, 2):
